@@ -48,6 +48,10 @@ def gen(rng, tier):
         cds = _cds(pts, cen)
         line = "fit.icurve %d %s %s %s" % (p, show_pts(pts), show_list(cds), fr(F(1.0 / p)))
         out.append(Case('icurve', line, dict(p=p, pts=pts, cen=cen)))
+        if rng.random() < .3 and min(5, npts - 1) > 1:
+            p2 = rng.choice([x for x in range(1, min(5, npts - 1) + 1) if x != p])
+            line2 = "fit.icurve %d %s %s %s" % (p2, show_pts(pts), show_list(cds), fr(F(1.0 / p2)))
+            out.append(Case('icurve', line2, dict(p=p2, pts=pts, cen=cen), tags=('same-data-again',)))
     for _ in range(20 if tier == 'quick' else 250):
         dim = 3
         su, sv = rng.randint(3, 7), rng.randint(3, 7)
@@ -71,6 +75,14 @@ def gen(rng, tier):
         G.count('approx_ncp', nc)
         line = "fit.acurve %d %s %s %d" % (p, show_pts(pts), show_list(cds), nc)
         out.append(Case('acurve', line, dict(p=p, pts=pts, cen=cen, nc=nc)))
+        # history independence: the same data fitted again in the same process with another number of
+        # control points / another degree (same parameters, other knot vector) must not see leftovers
+        if rng.random() < .5:
+            alts = [(p, m) for m in range(p + 2, npts) if m != nc] + [(p2, nc) for p2 in range(1, min(4, npts - 3) + 1) if p2 != p and nc >= p2 + 2]
+            if alts:
+                p2, nc2 = rng.choice(alts)
+                line2 = "fit.acurve %d %s %s %d" % (p2, show_pts(pts), show_list(cds), nc2)
+                out.append(Case('acurve', line2, dict(p=p2, pts=pts, cen=cen, nc=nc2), tags=('same-data-again',)))
     for _ in range(6 if tier == 'quick' else 60):
         su, sv = rng.randint(5, 8), rng.randint(5, 8)
         pu, pv = rng.randint(1, 3), rng.randint(1, 3)
